@@ -3,10 +3,12 @@
 TIER="${1:-quick}"; shift
 SEEDS="${*:-20261002}"
 cd "$(dirname "$0")/.." || exit 2
+BAD=0
 for s in $SEEDS; do
   for p in C01 C02 C03 C04 C05 C06 C07 C08 C09 C10 C11 C12 C13 C14 C15 C16 C17 C18 C19 C20; do
     out=$(VERIF_SEED=$s OPFMON_NO_EVIDENCE=${NO_EVIDENCE-1} ./check $p $TIER 2>&1); rc=$?
     echo "$p seed=$s rc=$rc $(echo "$out" | head -1)"
-    [ $rc -ne 0 ] && echo "$out" | grep -E "VIOLATION|INCONCLUSIVE|key=" | head -6
+    if [ $rc -ne 0 ]; then BAD=1; echo "$out" | grep -E "VIOLATION|INCONCLUSIVE|key=" | head -6; fi
   done
 done
+exit $BAD
